@@ -83,28 +83,31 @@ CHECKS["C11"] = {
     "ref": "DESIGN.md 5 C11, 10 seg",
 }
 
-CHECKS['C14'] = {'note': 'Partial proof: see coq/Props/C14.v header. Found and drove the repair of 4 defects (74e5b3c, b259a49, 52ced73, d688ba5).',
+CHECKS['C14'] = {'note': 'Proved for all reachable states of a single-writer system (see coq/Props/C14.v header; caveat: ErrSealed). Found and drove the repair of 4 defects (74e5b3c, b259a49, 52ced73, d688ba5).',
  'ref': 'DESIGN.md 5 C14, 10 conc',
- 'technique': 'Rocq proof (schedule-quantified invariants) + forced-schedule model/implementation correspondence + oracles',
+ 'technique': 'Rocq proof (schedule-quantified inductive invariant) + forced-schedule model/implementation correspondence + oracles',
  'text': "Kernel-checked for all schedules of the executable L3 model (Close, any number of API callers, rotation goroutine; atomic steps = the code's atomic "
          'actions and hook points): calls started after the closed flag is set return ErrClosed and a second Close is a no-op (C14_after_close), writeMu '
-         'mutual exclusion. For states satisfying the protocol invariant Inv1 (executable, tested, holds initially; inductiveness proved only for pc '
-         'consistency/roles/mutex): no step panics (C14_racing_calls_partial), some thread is enabled while a caller is unfinished (C14_no_deadlock_partial), '
-         'the system cannot rest with the rotation goroutine alive after Close (C14_rotator_exits_partial). The model is tied to wal.go/state.go by forcing '
-         'the same schedules on the real WAL through the verif hook points (every method x window x Close stage, pending rotation, random) and comparing '
-         'outcomes; model-independent oracles: recover(), deadlock watchdog, ErrClosed after Close, rotation goroutine exit, handle accounting, reopen. '
-         "Deadlock freedom and rotator exit for all reachable states, handle release and 'only result or ErrClosed' are NOT proved (partial): they are decided "
-         'by those oracles.'}
+         'mutual exclusion. For every reachable state of a system with a single writer thread the invariant Safe /\\ Inv1 /\\ Inv2 (protocol stages of Close, '
+         'channels, rotation goroutine; reference counts incl. successor references, retired bit, finalizers, ownership of every open handle, protection of '
+         'validated holders) is inductive, hence: no call panics (C14_no_panic), some thread is enabled while a caller is unfinished (C14_no_deadlock), the '
+         'system cannot rest with the rotation goroutine alive after Close (C14_rotator_exits), every recorded outcome is a result or ErrClosed -- never '
+         'Panic, an I/O error through a closed file or a metaDB error (C14_racing_calls, C14_racing_calls_clean), and after Close and all calls returned '
+         'every file handle and the metaDB were closed exactly once (C14_handles_released). Not excluded by the proof: ErrSealed from StoreLogs. The model is '
+         'tied to wal.go/state.go by forcing the same schedules on the real WAL through the verif hook points (every method x window x Close stage, pending '
+         'rotation, random) and comparing outcomes; model-independent oracles: recover(), deadlock watchdog, ErrClosed after Close, rotation goroutine exit, '
+         'handle accounting, acknowledged entries after two reopen cycles.'}
 
-CHECKS['C06'] = {'note': 'Partial proof: see coq/Props/C06.v header.',
+CHECKS['C06'] = {'note': 'Partial proof: see coq/Props/C06.v header (linearizability itself is not proved).',
  'ref': 'DESIGN.md 5 C06, 10 conc',
  'technique': 'Rocq proof (schedule-quantified invariants) + forced-schedule correspondence + history checker + race detector',
  'text': 'Kernel-checked for all schedules of the same L3 model (writer: append with offsets publish / write / fsync / commitIdx store, rotation, head and '
          'tail truncation with re-append; any number of readers): an entry becomes visible only after its batch is synced and readers read below the synced '
-         'prefix (C06_visible_only_durable); model-level absence of read/write conflicts on file contents (C06_no_conflict_partial, partial by nature). '
-         'Linearizability and use-after-close freedom are NOT proved: forced schedules around the protocol windows are compared with the extracted model, and '
-         "every read of every forced and free-running (8 readers, 1 writer) history is checked read-by-read against the writer's version log; the stress also "
-         'runs under the race detector in the thorough tier.'}
+         'prefix (C06_visible_only_durable); model-level absence of read/write conflicts on file contents (C06_no_conflict_partial, partial by nature); with '
+         'a single writer no read ever goes through a closed or deleted file (C06_stable_entry_intact, from the handle-ownership invariant of C14). '
+         'Linearizability is NOT proved: forced schedules around the protocol windows (including entries larger than 64 KiB and batches larger than 1 MiB '
+         'observed mid-write) are compared with the extracted model, and every read of every forced and free-running (8 readers, 1 writer) history is checked '
+         "read-by-read against the writer's version log; the stress also runs under the race detector in the thorough tier."}
 
 _pending = "check not built yet in this round (machinery under construction; see DESIGN.md section 10)"
 NOT_APPLICABLE = {("C%02d" % i): _pending for i in range(1, 21) if ("C%02d" % i) not in CHECKS}
